@@ -145,8 +145,8 @@ func CompareValues(left r.Element, right r.Element, verb uint8) (bool, error) {
 			if len(vl.value) != len(vr.value) {
 				return false, nil
 			}
-			// cmp each item
-			for idx := range vl.value {
+			// cmp each item (in key order, so that the outcome never depends on map iteration)
+			for _, idx := range vl.keyOrder {
 				// ensure the key exists on vr
 				vrr, ok := vr.value[idx]
 				if !ok {
@@ -156,7 +156,10 @@ func CompareValues(left r.Element, right r.Element, verb uint8) (bool, error) {
 				if err != nil {
 					return false, err
 				}
-				return cmpVal, nil
+				// every key has to match, whatever order the map yields them in
+				if !cmpVal {
+					return false, nil
+				}
 			}
 			return true, nil
 		}
